@@ -2,6 +2,7 @@ package main
 
 import (
 	"fmt"
+	"log/slog"
 	"sync"
 	"time"
 
@@ -392,6 +393,18 @@ func c13RetentionOrder(c *lib.Ctx) {
 	}
 	o.workers = 1 + c.R.Intn(3)
 	o.perSplit = 30 + c.R.Intn(40)
+	if c.R.Intn(2) == 0 {
+		// a slow log sink for the job's snapshot store (it logs through the default logger): a seeded fraction of its
+		// log calls yields or sleeps for a moment, so the goroutines that publish consecutive checkpoints and
+		// announce them can overtake each other at every log call
+		lag := lib.NewLagLogHandler(c.R.Int63(), lib.Pick(c.R, []int{30, 60}))
+		lag.LongP = 12 // now and then the sink stalls for longer than a checkpoint takes
+		slog.SetDefault(slog.New(lag))
+		defer func() {
+			slog.SetDefault(ophar.QuietLog)
+			c.Feat("store_log_calls_delayed", lag.Lags.Load())
+		}()
+	}
 	x := newRun(c, o)
 	defer x.close()
 	c.OnPanic = func() any { return x.wit() }
@@ -506,8 +519,23 @@ func c11Runner(c *lib.Ctx) {
 	x := newRun(c, o)
 	defer x.close()
 	c.OnPanic = func() any { return x.wit() }
+	late := 0
+	if o.splits >= 2 && c.R.Intn(3) == 0 {
+		// a second assignment round: the last splits are handed to their runners only after the runners have
+		// forwarded records of the first ones (shards discovered later)
+		late = 1 + c.R.Intn(o.splits-1)
+		x.src.Late = late
+	}
 	x.start(0)
 	x.waitCaughtUp()
+	if late > 0 {
+		time.Sleep(2 * time.Duration(x.tun.WatermarkIntervalNanos))
+		if x.src.ReleaseLate() {
+			x.logf("second assignment round: %d more splits", late)
+			c.Feat("second_assignment_rounds", 1)
+		}
+		x.waitCaughtUp()
+	}
 	time.Sleep(3 * time.Duration(x.tun.WatermarkIntervalNanos)) // a few more watermark ticks after the last record
 	if x.checkpoint(cluster.Watchdog) == nil {
 		x.c.Inconclusive("the drain checkpoint was not published within the watchdog (job errors %v)", x.cl.JobErrors())
